@@ -199,6 +199,14 @@ func vfC16Run(v *vfT, c vfC16Case) {
 		v.Skip("NewPeerConnection: " + err.Error())
 	}
 	defer func() { _ = pc.Close() }()
+	for _, l := range append(append([]vfFamCCodec{}, c.Local.Audio...), c.Local.Video...) {
+		if !l.isRTX() && l.Clock == 0 {
+			v.Label("local-codec-registered-without-clock-rate")
+		}
+		if strings.EqualFold(l.Name, "opus") && l.Ch == 0 {
+			v.Label("local-opus-registered-without-channels")
+		}
+	}
 	prefKinds := map[string]bool{}
 	for _, p := range c.Pre {
 		kind := NewRTPCodecType(p.Kind)
